@@ -89,20 +89,41 @@ def spec(tier, seed):
               bounds="every table entry and every word of length 0..%d over 7-bit bytes, every re-spelling of the word's letters" % n,
               functions=["rusty_common::cmp_str"])
         b.add(cu, "vk_c09_hash_stream_len%d" % n, """
+        // two spellings of the same name (they differ only in letter case) feed the hasher the same byte stream:
+        // the Eq/Hash agreement every name table relies on
         let a: [u8; %(n)d] = kani::any();
+        let mut c = a;
         let la: usize = kani::any();
         kani::assume(la <= %(n)d);
         let mut k = 0usize;
-        while k < %(n)d { kani::assume(a[k] < 128); k += 1; }
+        while k < %(n)d {
+            kani::assume(a[k] < 128);
+            let flip: bool = kani::any();
+            if flip && a[k].is_ascii_alphabetic() { c[k] = a[k] ^ 0x20; }
+            k += 1;
+        }
         let s = unsafe { std::str::from_utf8_unchecked(&a[..la]) };
+        let t = unsafe { std::str::from_utf8_unchecked(&c[..la]) };
+        assert!(cmp_str(s, t) == Ordering::Equal);
         let mut h = VkRec { buf: [0; 48], n: 0 };
+        let mut g = VkRec { buf: [0; 48], n: 0 };
         hash_str(s, &mut h);
-        // the hasher sees exactly the case-folded bytes: strings equal under cmp_str hash identically
-        assert!(h.n == la);
+        hash_str(t, &mut g);
+        assert!(h.n == g.n);
         let mut k = 0usize;
-        while k < %(n)d { if k < la { assert!(h.buf[k] == vk_fold(a[k])); } k += 1; }
+        while k < %(n)d { if k < h.n { assert!(h.buf[k] == g.buf[k]); } k += 1; }
+        // and the stream determines the name up to case: different names of the same length give different streams
+        let d: [u8; %(n)d] = kani::any();
+        let mut k = 0usize;
+        let mut same = true;
+        while k < %(n)d { kani::assume(d[k] < 128); if k < la && vk_fold(d[k]) != vk_fold(a[k]) { same = false; } k += 1; }
+        if !same {
+            let u = unsafe { std::str::from_utf8_unchecked(&d[..la]) };
+            assert!(cmp_str(s, u) != Ordering::Equal);
+        }
         """ % {"n": n}, unwind=n + 2, tier=t, cost=10 * n,
-              bounds="every 7-bit string of length 0..%d" % n, functions=["rusty_common::hash_str"])
+              bounds="every 7-bit string of length 0..%d and every re-spelling of its letters" % n,
+              functions=["rusty_common::hash_str", "rusty_common::cmp_str"])
 
     cs = b.file("rusty_common/src/case_insensitive_string.rs", "rusty_common", "case_insensitive_string")
     b.add(cs, "vk_c09_eq_hash_agree", """
